@@ -55,6 +55,9 @@ func c01Params(e *Env) fwdParams {
 func c01(e *Env) {
 	cfg := swarmWorld(e)
 	p := c01Params(e)
+	// tuning knob: few stream ids per backend connection in some runs, so that "no stream
+	// available" (the request moves on to the next host) is reached with tens of requests
+	cfg.MaxStreams = []int16{0, 0, 0, 4, 9}[e.C.Choose("maxstreams", 5)]
 	f := newFwd(e, p, cfg)
 	if !f.bootOK() {
 		return
@@ -66,6 +69,9 @@ func c01(e *Env) {
 	drained := f.runWorkload(10 * time.Minute)
 	e.Res.Sample = f.sample()
 	e.Res.Shape = fmt.Sprintf("h%d c%d cl%d f%v", p.Hosts, p.NumConns, p.Clients, f.fired)
+	if cfg.MaxStreams > 0 && w.Stats["backend.streams_high_water"] >= int(cfg.MaxStreams) {
+		e.Res.Stats["probe.c01.all_streams_of_a_connection_in_use"]++
+	}
 	if w.Stopped() {
 		return
 	}
